@@ -152,11 +152,14 @@ type LatencyMetrics struct {
 
 // Add adds the given latency to the latency metrics.
 func (l *LatencyMetrics) Add(latency time.Duration) {
+	// The estimator is created by the first sample; a zero Min can't
+	// tell "no samples yet" from an observed zero latency.
+	first := l.estimator == nil
 	l.init()
 	if l.Total += latency; latency > l.Max {
 		l.Max = latency
 	}
-	if latency < l.Min || l.Min == 0 {
+	if first || latency < l.Min {
 		l.Min = latency
 	}
 	l.estimator.Add(float64(latency))
